@@ -230,6 +230,13 @@ structure SciOk (m : Nat) (e : Int) (m' : Nat) (e' : Int) (d : Nat) : Prop where
   hacc : 2 * absdiff ((sci m' e' d).1 * (2 ^ (-(-1074 : Int)).toNat * T ((sci m' e' d).2 - d)))
       (units (-1074) m e * 10 ^ 400) ≤ 2 ^ (-(-1074 : Int)).toNat * T ((sci m' e' d).2 - d)
 
+/-- the shape part of `SciOk`: `d + 1` digits and a small exponent -/
+structure SciShape (m' : Nat) (e' : Int) (d : Nat) : Prop where
+  hN1 : 10 ^ d ≤ (sci m' e' d).1
+  hN2 : (sci m' e' d).1 < 10 ^ (d + 1)
+  hK1 : -324 ≤ (sci m' e' d).2
+  hK2 : (sci m' e' d).2 ≤ 320
+
 theorem sciText_digits (m' : Nat) (e' : Int) (d : Nat) (h1 : -400 ≤ (sci m' e' d).2) (h2 : (sci m' e' d).2 ≤ 400) :
     ∀ y ∈ (natDigits (sci m' e' d).1).take 1 ++ (natDigits (sci m' e' d).1).drop 1 ++
         expDigits (sci m' e' d).2, y.isDigit = true := by
@@ -241,20 +248,21 @@ theorem sciText_digits (m' : Nat) (e' : Int) (d : Nat) (h1 : -400 ≤ (sci m' e'
   · exact x3 y hy
 
 /-- **E-notation float fields**: for every finite non-zero double whose last emitted digit has
-place value `10^-322` or more (`wfE`: every normal double, and every subnormal one from
-`10^(decimals-322)` on), up to twelve declared decimals and a text that fits the field, the text written is `size` wide, parses to
+place value `10^-323` or more (`wfB`: every normal double, and every subnormal one from
+`10^(decimals-323)` on; the digits are moreover within half a unit of `x` from `10^(decimals-322)`
+on, `wfE`), up to twelve declared decimals and a text that fits the field, the text written is `size` wide, parses to
 `r = round(x, decimals − ⌊log10 |x|⌋)`, and writing `r` gives the same text again. -/
 theorem fltE_core (f : Field) (dec : Nat) (fmt c : Char) (hk : f.kind = .flt dec fmt [c])
     (hfmt : fmt = 'E' ∨ fmt = 'e') (hc1 : c ≠ ' ') (hc2 : c.isDigit = false) (hc3 : c ≠ '-')
     (hc4 : c ≠ '+') (hc5 : c ≠ 'e') (hc6 : c ≠ 'E')
-    (neg : Bool) (m : Nat) (e : Int) (hwf : wfE m e dec) (hdec : dec ≤ 12) (r : Dbl)
+    (neg : Bool) (m : Nat) (e : Int) (hwf : wfB m e dec) (hdec : dec ≤ 12) (r : Dbl)
     (hr : pyRound (.fin neg m e) ((dec : Int) - floorLog10 m e) = some r)
     (hfit : (fmtE r dec (fmt == 'E')).length ≤ f.size) :
     ∃ t, renderText f (.dbl (.fin neg m e)) = .ok t ∧ t.length = f.size ∧
       parseText f.kind t = some (.dbl r) ∧ renderText f (.dbl r) = .ok t ∧
-      ∃ m' e' k, r = .fin neg m' e' ∧ SciOk m e m' e' dec ∧
+      ∃ m' e' k, r = .fin neg m' e' ∧ SciShape m' e' dec ∧ (wfE m e dec → SciOk m e m' e' dec) ∧
         t = List.replicate k ' ' ++ subst1 '.' c (sciText neg m' e' dec (if (fmt == 'E') = true then 'E' else 'e')) := by
-  obtain ⟨hk1, hk2⟩ := kboundsE m e dec hwf hdec
+  obtain ⟨hk1, hk2⟩ := kboundsB m e dec hwf hdec
   have hm0 : m ≠ 0 := hwf.1
   rw [pyRound_nd neg m e _ (by omega) (by omega)] at hr
   cases hnd : nearestDec 53 (-1074) 971 (roundScaled m e ((dec : Int) - floorLog10 m e)) ((dec : Int) - floorLog10 m e) with
@@ -310,11 +318,16 @@ theorem fltE_core (f : Field) (dec : Nat) (fmt c : Char) (hk : f.kind = .flt dec
       rfl
     · apply renderText_fltE f dec fmt c hk hfmt neg m' e' hok.hm0 (.fin neg m' e') _ hfit
       have hk308 := klog_le_308 m' e' hok.hm0 hok.hm hok.he1 hok.he2
-      rw [pyRound_nd neg m' e' _ (by omega) (by omega)]
-      unfold nd53 at hself
-      rw [hself]; rfl
+      by_cases hnd' : (dec : Int) - floorLog10 m' e' ≤ 323
+      · rw [pyRound_nd neg m' e' _ (by omega) hnd']
+        unfold nd53 at hself
+        rw [hself]; rfl
+      · -- more than 323 digits asked for: `round` returns its argument
+        unfold pyRound
+        have : (dec : Int) - floorLog10 m' e' > 323 := by omega
+        simp only [this, if_true]
     · refine ⟨m', e', f.size - (subst1 '.' c (fmtE (.fin neg m' e') dec (fmt == 'E'))).length, rfl,
-        ⟨hN1, hN2, hK1, hK2, hacc⟩, ?_⟩
+        ⟨hN1, hN2, hK1, hK2⟩, fun hE => ⟨hN1, hN2, hK1, hK2, hacc (kboundsE m e dec hE hdec).1⟩, ?_⟩
       unfold sciText
       rw [← hshape]; rfl
 
